@@ -927,7 +927,8 @@ def gen_response(rng, limit):
             parts.append(b"* %d FETCH (FLAGS (\\Seen))\r\n" % rng.randint(1, 99))
         elif r < 0.75:
             # a literal whose text has CRLF-free runs of any length, also beyond the reader's limit
-            runs = [bytes([rng.choice(b"abc \r\n{}")]) * rng.choice([0, 1, 5, limit - 1, limit, limit + 1, limit + 2, 2 * limit + 3,
+            # (8-bit octets too: a message body need not be UTF-8)
+            runs = [bytes([rng.choice(b"abc \r\n{}\xe9\xff\x80")]) * rng.choice([0, 1, 5, limit - 1, limit, limit + 1, limit + 2, 2 * limit + 3,
                                                                    3 * limit])
                     for _ in range(rng.randint(1, 4))]
             body = b"\r\n".join(runs)
